@@ -11,11 +11,14 @@ const char *vf_harness_name() { return "slist"; }
 namespace {
 
 struct Elem {
+    uint64_t guard1;        // the library must never write outside the node it was given
     int id;
     int key;
     int cleared;            // times handed to the clear callback
     struct cstl_slist_node node;
+    uint64_t guard2;
 };
+const uint64_t GUARD1 = 0x5EED5EED0BADF00Dull, GUARD2 = 0xFEEDFACECAFEBEEFull;
 
 enum Op { PUSH_F, PUSH_B, INSERT_AFTER, ERASE_AFTER, POP_F, REVERSE, SORT, CONCAT, SWAP,
           FOREACH_STOP, CLEAR, AUDIT, NOPS };
@@ -65,6 +68,7 @@ struct Inst {
     struct cstl_slist sl[3];
     std::vector<Elem *> model[3];
     std::vector<Elem *> all;      // every element ever allocated & still owned by us
+    std::vector<int> keyof;       // id -> key, kept outside the elements
     int nlists, next_id;
     size_t clear_calls;
     bool twin_of_cleared;
@@ -75,6 +79,7 @@ struct Inst {
         nlists = n;
         next_id = 0;
         clear_calls = 0;
+        keyof.clear();
         for (int i = 0; i < 3; i++) {
             model[i].clear();
             cstl_slist_init(&sl[i], offsetof(Elem, node));
@@ -86,7 +91,11 @@ struct Inst {
         e->id = next_id++;
         e->key = key;
         e->cleared = 0;
+        e->guard1 = GUARD1;
+        e->guard2 = GUARD2;
         e->node.n = (struct cstl_slist_node *)0x5a5a5a5a5a5a5a5aull;
+        if ((size_t)e->id >= keyof.size()) keyof.resize(e->id + 1);
+        keyof[e->id] = key;
         all.push_back(e);
         return e;
     }
@@ -170,6 +179,10 @@ void audit(Inst &in, int li, Obs *obs, const char *clause_pfx)
           vc.seen.size(), m.size());
     for (size_t i = 0; i < m.size(); i++)
         CHECK(vc.seen[i] == m[i], cl, "%s L%d traversal position %zu differs from the reference", in.tag, li, i);
+    snprintf(cl, sizeof cl, "%s.payload", clause_pfx);
+    for (Elem *e : m)
+        CHECK(e->guard1 == GUARD1 && e->guard2 == GUARD2 && (size_t)e->id < in.keyof.size() && e->key == in.keyof[e->id], cl,
+              "%s L%d the library wrote into an element outside its list node", in.tag, li);
 }
 
 std::string seq_str(const std::vector<Elem *> &m)
@@ -200,7 +213,7 @@ std::string peek_state(Inst &in)
             if (l->t == c) tailpos = (long)n;
         }
         char b[48];
-        snprintf(b, sizeof b, "|t%ld|c%zu;", tailpos, (size_t)l->count);
+        snprintf(b, sizeof b, "|t%ld|c%zu|o%zu;", tailpos, (size_t)l->count, (size_t)l->off);
         s += b;
     }
     return s;
@@ -416,33 +429,39 @@ void vf_run(const uint8_t *data, size_t len)
         nops++;
         Pred pred = P_NONE;
         Obs oa, ob;
-        bool was_clear = (op == CLEAR);
-        apply(A, cx, op, a, b, K, maxlive, twin ? &oa : nullptr, &pred);
-        if (twin) {
-            Pred p2;
-            // the fresh twin mirrors every op (its own elements, same ids)
-            if (op == CLEAR) {
-                // keep the twin "fresh": clearing a fresh list is part of the history too
-            }
-            apply(B, cx, op, a, b, K, maxlive, &ob, &p2);
-            CHECK(oa == ob, "C15.slist.reuse", "after clear the list behaves differently from a fresh one (op %s)", OPN[op]);
-            cx.nt_reuse = true;
-        }
-        if (was_clear && cx.c15 && !twin) {
-            // from now on compare against a freshly initialised twin. Only the
-            // cleared list is empty; rebuild the twin's other lists from the model.
+        bool first_clear = cx.c15 && op == CLEAR && !twin;
+        bool okA = true, okB = true;
+        if (twin || first_clear) okA = model_ok([&] { apply(A, cx, op, a, b, K, maxlive, &oa, &pred); });
+        else apply(A, cx, op, a, b, K, maxlive, nullptr, &pred);
+        if (first_clear) {
+            // from now on compare against a freshly initialised twin. Only the cleared list is
+            // empty; the twin's other lists are rebuilt from the model. The state right after the
+            // clear is compared too (a stale tail / count shows here or at the next push).
             twin = true;
             B.next_id = A.next_id;
             for (int i = 0; i < nl; i++) {
                 for (Elem *e : A.model[i]) {
                     Elem *t = B.mk(e->key);
                     t->id = e->id;
+                    if ((size_t)t->id >= B.keyof.size()) B.keyof.resize(t->id + 1);
+                    B.keyof[t->id] = e->key;
                     LIB(cstl_slist_push_back(&B.sl[i], t));
                     B.model[i].push_back(t);
                 }
             }
             B.next_id = A.next_id;
             TRACE("twin B created (fresh list, other lists rebuilt)");
+            okB = model_ok([&] { audit(B, a % nl, &ob, "C13"); });
+        } else if (twin) {
+            Pred p2;
+            okB = model_ok([&] { apply(B, cx, op, a, b, K, maxlive, &ob, &p2); });
+            cx.nt_reuse = true;
+        }
+        if (twin) {
+            CHECK(okA == okB, "C15.slist.reuse", "after clear the list %s the list model where a freshly initialised one %s (op %s)",
+                  okA ? "satisfies" : "violates", okB ? "satisfies it" : "does not", OPN[op]);
+            if (!okA) throw Abandon{"C13.(cleared list and fresh twin alike)"};
+            CHECK(oa == ob, "C15.slist.reuse", "after clear the list behaves differently from a fresh one (op %s)", OPN[op]);
         }
         if (op == PUSH_B && last_pred != P_NONE) {
             cnt_dyn(std::string("class.push_back_after.") + PREDN[last_pred]);
